@@ -15,6 +15,11 @@ Variable ffmt : Z -> Z -> bytes.
 Variable tz : Z -> Z.
 Variable jsonp : bytes -> res bytes.
 
+(* The premise pos <= length d of CellBytes_equiv (the position is a slice index of the row data, as at every call site):
+   without it the model is stricter than the code in one corner, found while proving the TypeString case: a SET stored as
+   a string with width byte 0 makes the Go loop run zero times and never touch the data, whereas the model takes a
+   zero-length slice at pos and panics when pos lies beyond the data (CellBytes_TypeString_differs). *)
+
 (* a type code no case of the switch names: both sides report an error *)
 Lemma cell_bytes_unsupported d pos typ meta uns :
   ~ In typ [1; 13; 2; 9; 3; 4; 5; 7; 8; 10; 14; 11; 12; 15; 253; 16; 17; 18; 19; 246; 247; 248; 245; 249; 250; 251; 252; 254; 255] ->
@@ -33,11 +38,11 @@ Proof.
 Qed.
 
 Theorem CellBytes_equiv fuel d pos typ meta uns :
-  (1000 <= fuel)%nat -> wf_bytes d -> 0 <= meta < 65536 -> Z.of_nat pos < 2 ^ 62 ->
+  (1000 <= fuel)%nat -> wf_bytes d -> 0 <= meta < 65536 -> Z.of_nat pos < 2 ^ 62 -> (pos <= length d)%nat ->
   res_sim (CellBytes_g ffmt (print_timestamp tz) jsonp fuel d (Z.of_nat pos) typ meta uns)
           (flat (cell_bytes ffmt tz jsonp d pos typ meta uns)).
 Proof.
-  intros Hf W Hm Hp. unfold CellBytes_g.
+  intros Hf W Hm Hp Hle. unfold CellBytes_g.
   Ltac case_by L :=
     match goal with
     | |- context [if ?c then _ else _] =>
